@@ -157,7 +157,10 @@ TickRules(k, t) ==
           <<k, "C19.WriteNotStuck", "write" \in e.pend /\ alive, R_C19_WriteNotStuck(e), "">>,
           \* (known finding D4: the sender believes the window is zero although the receiver has since advertised
           \*  a non-zero one - that acknowledgement was lost and nothing repeats it)
-          <<k, "C02.NoStall", fair /\ undel, ~quiet, IF e.pwnd = 0 /\ hasPeer /\ p.lastWnd > 0 /\ e.rxCount > 0 THEN "pwnd=0" ELSE "">>,
+          \* (... and nothing is cut: with segments queued the pinned code's retransmission timer keeps running and
+          \*  doubles as a window probe, see D6)
+          <<k, "C02.NoStall", fair /\ undel, ~quiet,
+                              IF e.pwnd = 0 /\ hasPeer /\ p.lastWnd > 0 /\ e.rxCount > 0 /\ e.segd = 0 THEN "pwnd=0" ELSE "">>,
           <<k, "C02.Silence", meta.class = "loss-free" /\ undel,
                               t - Max(e.lastWire, p.lastWire) <= 2 * meta.lat + ACK_DELAY + Eps, "">> }
 
@@ -176,8 +179,9 @@ Tick(r) ==
                                 !.ackDue = IF @ >= 0 /\ r.now > @ + Eps THEN -1 ELSE @,
                                 !.pend = IF eps[k].ended THEN {} ELSE @,
                                 !.stalled = IF @ = "" /\ (Stalled(k) \/ (Live(eps[k].cfg.peer) /\ Stalled(eps[k].cfg.peer)))
-                                            THEN (IF \/ (eps[k].pwnd = 0 /\ Live(eps[k].cfg.peer) /\ eps[eps[k].cfg.peer].lastWnd > 0)
-                                                     \/ (Live(eps[k].cfg.peer) /\ eps[eps[k].cfg.peer].pwnd = 0 /\ eps[k].lastWnd > 0)
+                                            THEN (IF \/ (eps[k].pwnd = 0 /\ eps[k].segd = 0 /\ Live(eps[k].cfg.peer) /\ eps[eps[k].cfg.peer].lastWnd > 0)
+                                                     \/ (Live(eps[k].cfg.peer) /\ eps[eps[k].cfg.peer].pwnd = 0 /\ eps[eps[k].cfg.peer].segd = 0
+                                                         /\ eps[k].lastWnd > 0)
                                                   THEN "after-zero-window-stall" ELSE "after-stall")
                                             ELSE @]]
 
@@ -209,7 +213,9 @@ TxEndpoint(r, h, k) ==
             <<"C14.NeverAboveLink", TRUE, r.len <= e.cfg.link_mtu - IpUdp(e.cfg)>>,
             <<"C04.AckExact", TRUE, R_C04_AckExact(e, h.ack)>>,
             <<"C04.AckMonotone", e.lastAck >= 0, R_C04_AckMonotone(e, h.ack)>>,
-            <<"C04.SackExact", h.type = ST_STATE,
+            \* (once the peer's FIN has been taken in the stream is complete: packets "beyond" it are not out-of-order
+            \*  data of the stream, and what is reported about them is not judged)
+            <<"C04.SackExact", h.type = ST_STATE /\ e.peerFin < 0,
                                R_C04_SackExact(e, h.ack, HasSack(h), SackSet(sack))>>,
             <<"C04.WindowHonest", TRUE, R_C04_WindowHonest(e, wnd)>>,
             <<"C08.SilentAfterEnd", e.ended, FALSE>>,
@@ -221,7 +227,11 @@ TxEndpoint(r, h, k) ==
             \* (the SYN-ACK and its timer-driven repeats; an ACK provoked by the application, e.g. a window change,
             \*  is not a repeat)
             <<"C17.SynAckRepeats", handshake /\ h.type = ST_STATE /\ (e.txCount = 0 \/ ~e.stim), e.synAcks + 1 <= e.cfg.max_retx>> }
-        data == IF ~isData THEN {} ELSE {
+        \* (once the peer's FIN has been taken in this implementation is closing in both directions: it answers with a
+        \*  FIN numbered after the last segment it TRANSMITTED and may still transmit segments it had cut before, under
+        \*  numbers that collide with that FIN; the peer has closed and discards them.  The sender-side clauses are about
+        \*  an open sending direction and are not judged from there on - the same scoping as in Xmit.)
+        data == IF ~isData THEN {} ELSE IF e.peerFin >= 0 THEN { <<"C01.NoGarbage", TRUE, R_NoGarbage(r.runs)>> } ELSE {
             <<"C01.NoGarbage", TRUE, R_NoGarbage(r.runs)>>,
             <<"C01.SegStable", Known(e, s), R_SegStable(e, s, r.runs, r.alts, r.amb, r.plen)>>,
             <<"C06.SegStable", Known(e, s), R_SegStable(e, s, r.runs, r.alts, r.amb, r.plen)>>,
@@ -309,7 +319,9 @@ Xmit(r) ==
                     <<"C06.Backoff", retx /\ isRto /\ ordinary /\ e.rtoMode, R_C06_Backoff(e, r.rto)>>,
                     <<"C06.RtoRange", TRUE, R_C06_RtoRange(r.rto)>>,
                     \* C14 "ordinary segments never exceed the largest payload size already proven deliverable (or the protocol minimum)"
-                    <<"C14.OrdinaryWithinProven", first /\ ordinary, r.len <= OwnMss(e)>>,
+                    \* (a peer that acknowledges sequence numbers never transmitted - among them a probe that was cut but
+                    \*  not sent - has "proven" a size by lying; only its own connection is affected)
+                    <<"C14.OrdinaryWithinProven", first /\ ordinary /\ ~e.peerLied, r.len <= OwnMss(e)>>,
                     \* C14 "at most one oversized probe is outstanding and it is the newest segment"
                     <<"C14.OneProbe", first, e.probeOut < 0 \/ e.probeOut = r.seq>>,
                     \* C14 "settles, after a logarithmic number of probes": a binary search over at most 2^14 sizes
@@ -360,6 +372,7 @@ Recv(r) ==
                 drain == /\ SentUnacked(e) /\ ~SentUnacked(e1) /\ e1.nextOff < e1.wr /\ e1.pwnd >= e1.cfg.link_mtu
                          /\ r.state = "established" /\ e1.peerFin < 0 /\ ~e1.txPending
                 e2 == [e1 EXCEPT !.state = r.state, !.stim = TRUE, !.rxCount = @ + 1, !.lastRxAt = now,
+                                 !.peerLied = @ \/ (r.t \in {ST_DATA, ST_STATE, ST_FIN} /\ D(r.ack, e.nxt) > 0),
                                  !.lastDataRxAt = IF r.t \in {ST_DATA, ST_FIN} THEN now ELSE @,
                                  !.maxArr = IF r.t = ST_DATA /\ ActsOn(e, r) THEN Max(@, r.plen) ELSE @,
                                  !.drainDue = IF drain THEN l ELSE @,
@@ -508,7 +521,15 @@ Ret(r) ==
 
 WaitTimeout(r) ==
     /\ UNCHANGED <<run, now, meta, eps, sendIdx, app, infl, sk, pairs, last>>
-    /\ Judge(<<"", -1>>, { <<"C02.CompletesOk", meta.class \in {"fair-lossy", "loss-free"}, FALSE>> })
+    \* C02 "every byte accepted by write is eventually readable at the peer, flush and shutdown eventually return":
+    \* a write / flush / shutdown still waiting, or a read waiting while the peer has accepted bytes it has not got.
+    \* (A read that only waits for the end of stream is not covered: this implementation gives a closing connection
+    \*  one second, so a FIN lost when the retransmission timeout exceeds that is never repeated - DESIGN.md 0.3.)
+    /\ LET starved(n) == n \in DOMAIN app /\ Live(app[n]) /\ Live(eps[app[n]].cfg.peer)
+                          /\ eps[eps[app[n]].cfg.peer].wr > eps[app[n]].rd
+           bad == IF Has(r, "reads") THEN r.others # <<>> \/ \E i \in 1 .. Len(r.reads) : starved(r.reads[i])
+                  ELSE TRUE
+       IN  Judge(<<"", -1>>, { <<"C02.CompletesOk", meta.class \in {"fair-lossy", "loss-free"}, ~bad>> })
 
 (* The segmentation decision (the instant the implementation fixes a segment's size; uTP never re-segments). *)
 SegEv(r) ==
@@ -551,7 +572,7 @@ Poll(r) ==
                                           /\ e.probeOut < 0 /\ ~e.probeQ /\ ~r.pending /\ r.ring_len > 0,
                                          ~(r.ring_len > r.segmented /\ r.segmented < r.pwnd)>> })
             /\ eps' = [eps EXCEPT ![k] = [e EXCEPT !.state = r.state, !.tRtx = r.t_rtx, !.tAck = r.t_ack,
-                                                   !.trans = [@ EXCEPT !.on = FALSE],
+                                                   !.trans = [@ EXCEPT !.on = FALSE], !.segd = r.segmented,
                                                    !.codeMss = r.mss, !.codeMaxSs = r.max_ss,
                                                    !.idleArmed = IF ~SentUnacked(e) /\ ~FinUnacked(e) THEN r.t_rtx
                                                                  ELSE IF @ = r.t_rtx THEN @ ELSE -1,
